@@ -438,8 +438,9 @@ def check_case(ctx, case):
 
 
 # ------------------------------------------------------------------ items ------------------------------------------------------------
-def systematic_cases():
-    """Every statement kind alone (with what it needs) and every ordered pair of kinds, in every home, 2 seeds each."""
+def systematic_cases(pairs=True):
+    """Every statement kind alone x3 (with what it needs), nested in if/while/for, if/elif/else ladders, break/continue in
+    loops and (pairs) every ordered pair of kinds; in every home."""
     for home in HOMES:
         for k in KINDS:
             for rep in range(3):
@@ -455,7 +456,8 @@ def systematic_cases():
         for k in ('break', 'continue'):
             for outer in ('while', 'for'):
                 yield make_case(home, 'loop/%s/%s/%s' % (home, outer, k), 3, [outer, k])
-
+    if not pairs:
+        return
     for home in HOMES:
         for k1, k2 in itertools.product(KINDS, KINDS):
             yield make_case(home, 'pair/%s/%s/%s' % (home, k1, k2), 2, [k1, k2])
@@ -465,11 +467,11 @@ def systematic_cases():
                                         'bridgepoint.prebuild.OperationPrebuilder', 'bridgepoint.prebuild.DerivedAttributePrebuilder'],
       bound='24 statement forms (assignments to transients/attributes/instance handles, create, delete, relate/unrelate (+using, phrases), '
             'select any/many from instances (+where), select one/any/many related by chains of 1-3 steps (+where), function/bridge/'
-            'operation invocations, control stop, return, if/elif/else, while, for each, break, continue): each alone x3, every ordered '
-            'pair, each nested in if/while/for; 6 if/elif/else ladders; in 6 action homes (function void/integer, bridge, instance and class operation, derived attribute)',
+            'operation invocations, control stop, return, if/elif/else, while, for each, break, continue): each alone x3, (thorough: every '
+            'ordered pair,) each nested in if/while/for; 6 if/elif/else ladders; in 6 action homes (function void/integer, bridge, instance and class operation, derived attribute)',
       shards=8, weight=2)
 def statement_kinds(ctx):
-    for i, case in enumerate(systematic_cases()):
+    for i, case in enumerate(systematic_cases(pairs=not ctx.quick)):
         if i % ctx.nshards != ctx.shard:
             continue
         if ctx.expired():
@@ -486,7 +488,7 @@ def statement_kinds(ctx):
 
 def random_cases(quick, seed):
     sizes = [2, 3, 4, 5, 6, 8, 10, 12] if quick else [2, 3, 4, 5, 6, 8, 10, 12, 16, 20, 25]
-    per = 40 if quick else 700
+    per = 36 if quick else 350
     for size in sizes:
         for n in range(per):
             for home in HOMES[:4] if n % 3 else HOMES:
@@ -496,7 +498,7 @@ def random_cases(quick, seed):
 @item('random-programs', stands_in_for=['bridgepoint.prebuild.prebuild_action', 'bridgepoint.prebuild.ActionPrebuilder'],
       bound='seeded random programs of 2..12 (quick) / 2..25 (thorough) statements, nesting depth <= 3, expressions of depth <= 3 over '
             'literals, variables, attribute/parameter reads, enumerators, constants, arithmetic, comparisons, and/or/not, cardinality/empty/'
-            'not_empty, invocations with named parameters; 40 (quick) / 700 (thorough) programs per size and home; non-trivial = distinct text',
+            'not_empty, invocations with named parameters; 36 (quick) / 350 (thorough) programs per size and home; non-trivial = distinct text',
       shards=8, weight=3)
 def random_programs(ctx):
     for i, (home, gen, size) in enumerate(random_cases(ctx.quick, ctx.seed)):
